@@ -711,6 +711,17 @@ func c12Validator(c *core.Ctx, keys []gen.KeyPair, cas []*gen.CA, certFn gen.Fun
 					{"ALLOW", "allow"}, {"REQUIRE", "MATCH"}, {"DISALLOW", "with"}, {"CREATE", "in"}, {"DELETE", "from"}, {"MODIFY", "products"},
 				}
 			}},
+			{"conforming: rule operands with blanks", func(l *intoto.Layout, s *[]intoto.Signature) {
+				l.Steps[0].ExpectedMaterials = [][]string{{"CREATE", "release notes.txt"}, {"MATCH", "*", "WITH", "PRODUCTS", "FROM", "unit test"}, {"ALLOW", "a b c"}}
+			}},
+			{"malformed rule that reads like an earlier well-formed one once its words are joined (CREATE with two operands)", func(l *intoto.Layout, s *[]intoto.Signature) {
+				l.Steps[0].ExpectedMaterials = [][]string{{"CREATE", "release notes.txt"}}
+				l.Steps[1].ExpectedProducts = [][]string{{"CREATE", "release", "notes.txt"}}
+			}},
+			{"malformed rule that reads like an earlier well-formed one once its words are joined (MATCH with a step name of two words)", func(l *intoto.Layout, s *[]intoto.Signature) {
+				l.Steps[0].ExpectedProducts = [][]string{{"MATCH", "*", "WITH", "PRODUCTS", "FROM", "unit test"}}
+				l.Inspect[0].ExpectedMaterials = [][]string{{"MATCH", "*", "WITH", "PRODUCTS", "FROM", "unit", "test"}}
+			}},
 			{"malformed rule first in step materials, well-formed rules behind it", func(l *intoto.Layout, s *[]intoto.Signature) {
 				l.Steps[0].ExpectedMaterials = append([][]string{{"PERMIT", "*"}}, append(l.Steps[0].ExpectedMaterials, []string{"ALLOW", "x"}, []string{"DISALLOW", "*"})...)
 			}},
@@ -846,7 +857,7 @@ func init() {
 	core.Register(&core.Property{
 		ID:    "C12",
 		Level: "exploration",
-		Rule: "(A) round trip: seeded links/layouts (hostile strings, nested values, constraints, CA maps; a fifth with absent collections, which the library writes as null; every 13th with content that spells the member names of the file formats (payloadType, payload, signatures, signed, _type); every 41st of several hundred KiB: 1500 products / 2500 rules) x wrapper x 0-2 signatures (legacy: one with certificate), Dump -> LoadMetadata / Metablock.Load: wrapper recognised, payload, signatures and signature validity preserved; (B) labelled single-point corruptions of the dumped JSON: drop/null/retype of the wrapper parts, wrong payload types, undecodable payload, a complete document followed by something (inside the envelope payload and behind the file), truncations, unknown/odd type markers, drop/rename of every required top-level member, an unknown member at every fixed-schema level, a renamed member at every nested fixed-schema level, a value of another JSON type at every schema-typed node - all must be refused by both loaders; (C) ValidateMetablock against a reference validator (one predicate per format rule) on conforming bases and ~64 single-rule variants (malformed rules also in front of and between well-formed ones; well-formed rules whose operands are spelled like keywords) (plus 17 near-hexadecimal strings - sign, 0x, blanks, underscore, full-width digits - at every place where a hexadecimal string is demanded) each for layouts (all three key maps) and links. " +
+		Rule: "(A) round trip: seeded links/layouts (hostile strings, nested values, constraints, CA maps; a fifth with absent collections, which the library writes as null; every 13th with content that spells the member names of the file formats (payloadType, payload, signatures, signed, _type); every 41st of several hundred KiB: 1500 products / 2500 rules) x wrapper x 0-2 signatures (legacy: one with certificate), Dump -> LoadMetadata / Metablock.Load: wrapper recognised, payload, signatures and signature validity preserved; (B) labelled single-point corruptions of the dumped JSON: drop/null/retype of the wrapper parts, wrong payload types, undecodable payload, a complete document followed by something (inside the envelope payload and behind the file), truncations, unknown/odd type markers, drop/rename of every required top-level member, an unknown member at every fixed-schema level, a renamed member at every nested fixed-schema level, a value of another JSON type at every schema-typed node - all must be refused by both loaders; (C) ValidateMetablock against a reference validator (one predicate per format rule) on conforming bases and ~64 single-rule variants (malformed rules also in front of and between well-formed ones; well-formed rules whose operands are spelled like keywords or contain blanks; malformed rules that read like an earlier well-formed rule of the same layout once their words are joined) (plus 17 near-hexadecimal strings - sign, 0x, blanks, underscore, full-width digits - at every place where a hexadecimal string is demanded) each for layouts (all three key maps) and links. " +
 			"non-trivial = the corruption changed the parsed JSON / the variant differs from the base; distinct = (kind, wrapper, loader, corruption label) resp. hash of the value",
 		Assumptions: []string{
 			"an expiry with fractional seconds (2030-01-01T00:00:00.5Z) is not judged: it is a parseable UTC timestamp, although not of the YYYY-MM-DDThh:mm:ssZ shape",
